@@ -415,7 +415,7 @@ where
                 }
 
                 let cookie = serde_json::from_slice::<AuthCookie>(message)?;
-                let expires_at = cookie.timestamp + self.auth_cookie_expiry;
+                let expires_at = cookie.timestamp.saturating_add(self.auth_cookie_expiry);
                 let now = SystemTime::now()
                     .duration_since(UNIX_EPOCH)
                     .expect("time error")
